@@ -419,15 +419,7 @@ def buf_rules(prog, R, refill):
             n2 += 1
             R.add('BUF-2', b, 'alter@%s->verdict' % describe_block(b, a), not badv, site(b, b.blocks[a].term.line),
                   'end-of-input verdict reachable after altering the buffer without a refill: %s' % [b.blocks[v].term.line for v in badv])
-            # (b) Ok-return reachable without fill — only for functions that also refill
-            # (pure alter helpers such as grow/make_room are A events of their callers)
-            if not F:
-                continue
-            okret = ok_return_blocks(b)
-            badr = sorted(r for r in okret if r in reach)
-            R.add('BUF-2', b, 'alter@%s->ok-return' % describe_block(b, a), not badr, site(b, b.blocks[a].term.line),
-                  'normal (non-error) return reachable after altering the buffer without a refill: %s' % badr)
-    R.floor('BUF-2', 16)
+    R.floor('BUF-2', 8)
     # ---- LOOP-1
     n = 0
     for b in bodies:
